@@ -29,7 +29,7 @@ def plan_of(case, nbus):
     """iterations of the prefix, the iteration that will be interrupted, the drain"""
     rng = random.Random(case["kseed"])
     its, limit, now = [], 2, 0
-    while limit < nbus:
+    while limit < nbus or not its:     # a bus of two events or fewer still gets one iteration
         limit = min(nbus, limit + rng.randint(1, 4))
         now += 10
         its.append({"limit": limit, "now": now, "faults": True})
